@@ -15,18 +15,20 @@ Definition rres (r : res ddpstring) (e : res (list Z)) : Prop :=
 
 Lemma repr_tchars s cs : repr s cs -> tchars cs.
 Proof. intros [H _]. exact H. Qed.
-Lemma repr_nil s : repr s [] -> s = empty_string.
-Proof. intros [_ [[_ H]|[H _]]]; [exact H|congruence]. Qed.
+Lemma repr_nil s : repr s [] -> s = empty_string \/ s = owned_empty.
+Proof. intros [_ [[_ H]|[[_ H]|[H _]]]]; [left; exact H|right; exact H|congruence]. Qed.
 Lemma repr_empty : repr empty_string [].
 Proof. split; [reflexivity|left; split; reflexivity]. Qed.
+Lemma repr_owned_empty : repr owned_empty [].
+Proof. split; [reflexivity|right; left; split; reflexivity]. Qed.
 Lemma repr_cons s c cs : repr s (c :: cs) ->
   bytes s = E (c :: cs) ++ [0] /\ cap s = len (E (c :: cs)) + 1 /\ tchar c = true /\ tchars cs.
 Proof.
-  intros [T [[H _]|(_ & Hb & Hc)]]; [discriminate H|]. apply tchars_cons in T. destruct T as [T1 T2].
+  intros [T [[H _]|[[H _]|(_ & Hb & Hc)]]]; [discriminate H|discriminate H|]. apply tchars_cons in T. destruct T as [T1 T2].
   rewrite Hc, Hb, len_app. cbn. auto.
 Qed.
 Lemma repr_intro cs b cp : tchars cs -> cs <> [] -> b = E cs ++ [0] -> cp = len b -> repr (mkstr b cp) cs.
-Proof. intros T N -> ->. split; [exact T|right; repeat split; auto]. Qed.
+Proof. intros T N -> ->. split; [exact T|right; right; repeat split; auto]. Qed.
 
 Lemma clen_le_len_E cs : tchars cs -> clen cs <= len (E cs).
 Proof.
@@ -60,7 +62,7 @@ Qed.
 
 Lemma deep_copy_repr s cs : repr s cs -> deep_copy_string s = Ok s.
 Proof.
-  intros H. destruct cs as [|c cs]; [rewrite (repr_nil _ H); reflexivity|].
+  intros H. destruct cs as [|c cs]; [destruct (repr_nil _ H) as [-> | ->]; reflexivity|].
   rewrite (repr_open _ _ _ H). unfold deep_copy_string. rewrite is_null_block. cbn [bytes cap].
   replace (len (E (c :: cs)) + 1) with (len (E (c :: cs) ++ [0])) by (rewrite len_app; reflexivity).
   rewrite sub_all. cbn [bind]. rewrite blit_alloc_all. reflexivity.
@@ -68,7 +70,7 @@ Qed.
 
 Lemma string_empty_repr s cs : repr s cs -> string_empty s = Ok (match cs with [] => true | _ => false end).
 Proof.
-  intros H. destruct cs as [|c cs]; [rewrite (repr_nil _ H); reflexivity|].
+  intros H. destruct cs as [|c cs]; [destruct (repr_nil _ H) as [-> | ->]; reflexivity|].
   rewrite (repr_open _ _ _ H). destruct (repr_cons _ _ _ H) as (_ & _ & Hc & _).
   unfold string_empty. rewrite is_null_block. cbn [bytes cap]. pose proof (len_E_pos c cs Hc). case_if.
   destruct (E_nonempty c cs Hc) as (a & t & -> & Ha). cbn [app]. rewrite rd_0. cbn [bind]. f_equal. lia.
@@ -76,7 +78,7 @@ Qed.
 
 Lemma utf8_strlen_repr s cs : repr s cs -> utf8_strlen (bytes s) = Ok (clen cs).
 Proof.
-  intros H. destruct cs as [|c cs]; [rewrite (repr_nil _ H); reflexivity|].
+  intros H. destruct cs as [|c cs]; [destruct (repr_nil _ H) as [-> | ->]; reflexivity|].
   rewrite (repr_open _ _ _ H). cbn [bytes]. unfold utf8_strlen.
   destruct (E (c :: cs) ++ [0]) eqn:Q; [destruct (E (c :: cs)); discriminate Q|]. rewrite <- Q.
   apply utf8_strlen_E, (repr_tchars _ _ H).
@@ -93,14 +95,14 @@ Proof. intros H. unfold index_error. rewrite (utf8_strlen_repr _ _ H). reflexivi
 
 Lemma ddp_strlen_repr s cs : repr s cs -> ddp_strlen s = Ok (len (E cs)).
 Proof.
-  intros H. destruct cs as [|c cs]; [rewrite (repr_nil _ H); reflexivity|].
+  intros H. destruct cs as [|c cs]; [destruct (repr_nil _ H) as [-> | ->]; reflexivity|].
   rewrite (repr_open _ _ _ H). unfold ddp_strlen. rewrite is_null_block. cbn [bytes].
   apply c_strlen_nz, E_bytes, (repr_tchars _ _ H).
 Qed.
 
 Lemma print_text_repr s cs : repr s cs -> print_text s = Ok (E cs).
 Proof.
-  intros H. destruct cs as [|c cs]; [rewrite (repr_nil _ H); reflexivity|].
+  intros H. destruct cs as [|c cs]; [destruct (repr_nil _ H) as [-> | ->]; reflexivity|].
   rewrite (repr_open _ _ _ H). unfold print_text. rewrite is_null_block. cbn [bytes].
   apply c_string_nz, E_bytes, (repr_tchars _ _ H).
 Qed.
@@ -194,8 +196,9 @@ Section WithCodec.
     intros H. unfold string_index, s_index.
     destruct (i <? 1) eqn:I1; [replace ((1 <=? i) && (i <=? clen cs)) with false by lia; reflexivity|].
     destruct cs as [|c cs].
-    { rewrite (repr_nil _ H). unfold empty_string. cbn [cap bytes]. replace ((0 <? i) || (0 <=? 1)) with true by lia.
-      replace ((1 <=? i) && (i <=? clen [])) with false by (cbn; lia). reflexivity. }
+    { destruct (repr_nil _ H) as [-> | ->]; [unfold empty_string|unfold owned_empty]; cbn [cap bytes];
+      [replace ((0 <? i) || (0 <=? 1)) with true by lia|replace ((1 <? i) || (1 <=? 1)) with true by lia];
+      replace ((1 <=? i) && (i <=? clen [])) with false by (cbn; lia); reflexivity. }
     pose proof (repr_tchars _ _ H) as T. destruct (repr_cons _ _ _ H) as (_ & _ & Hc & Tcs).
     pose proof (clen_le_len_E _ T) as Hle. pose proof (len_E_pos c cs Hc) as Hpos.
     pose proof (repr_open _ _ _ H) as Hs. subst s. cbn [cap bytes].
@@ -233,8 +236,9 @@ Section WithCodec.
     intros H Hch. unfold replace_char_in_string, s_replace.
     destruct (i <? 1) eqn:I1; [replace ((1 <=? i) && (i <=? clen cs)) with false by lia; exact I|].
     destruct cs as [|c cs].
-    { rewrite (repr_nil _ H). unfold empty_string. cbn [cap bytes]. replace ((0 <? i) || (0 <=? 1)) with true by lia.
-      replace ((1 <=? i) && (i <=? clen [])) with false by (cbn; lia). exact I. }
+    { destruct (repr_nil _ H) as [-> | ->]; [unfold empty_string|unfold owned_empty]; cbn [cap bytes];
+      [replace ((0 <? i) || (0 <=? 1)) with true by lia|replace ((1 <? i) || (1 <=? 1)) with true by lia];
+      replace ((1 <=? i) && (i <=? clen [])) with false by (cbn; lia); exact I. }
     pose proof (repr_tchars _ _ H) as T. destruct (repr_cons _ _ _ H) as (_ & _ & Hc & Tcs).
     pose proof (clen_le_len_E _ T) as Hle. pose proof (len_E_pos c cs Hc) as Hpos.
     pose proof (repr_open _ _ _ H) as Hs. subst s. cbn [cap bytes].
@@ -334,7 +338,8 @@ Section WithCodec.
     intros H Hch. unfold replace_char_in_string.
     destruct (i <? 1) eqn:I1; [reflexivity|].
     destruct cs as [|c cs].
-    { rewrite (repr_nil _ H). unfold empty_string. cbn [cap bytes]. replace ((0 <? i) || (0 <=? 1)) with true by lia. reflexivity. }
+    { destruct (repr_nil _ H) as [-> | ->]; [unfold empty_string|unfold owned_empty]; cbn [cap bytes];
+      [replace ((0 <? i) || (0 <=? 1)) with true by lia|replace ((1 <? i) || (1 <=? 1)) with true by lia]; reflexivity. }
     pose proof (repr_tchars _ _ H) as T. destruct (repr_cons _ _ _ H) as (_ & _ & Hc & Tcs).
     pose proof (repr_open _ _ _ H) as Hs. subst s. cbn [cap bytes].
     destruct ((len (E (c :: cs)) + 1 <? i) || (len (E (c :: cs)) + 1 <=? 1)) eqn:G.
